@@ -86,7 +86,7 @@ Init ==
     /\ form \in Forms
     /\ w \in 0..(len + MaxWExtra)
     /\ len2 \in IF form \in Forms2
-                THEN {len} \cup ({len - 1, len + 1} \cap 0..MaxLen)
+                THEN {len} \cup ({len - 2, len - 1, len + 1, len + 2, len + 3} \cap 0..(MaxLen + 3))
                 ELSE {len}
     /\ body \in IF HasTo(form) THEN {"iter", "to"} ELSE {"iter"}
     /\ pc = "begin" /\ pos = 0 /\ calls = <<>> /\ written = {} /\ reads = {}
@@ -140,7 +140,7 @@ Spec == Init /\ [][Next]_vars /\ WF_vars(Next)
 (* ---- properties -------------------------------------------------------- *)
 
 TypeOK ==
-    /\ len \in 0..MaxLen /\ len2 \in 0..MaxLen /\ w \in Nat
+    /\ len \in 0..MaxLen /\ len2 \in 0..(MaxLen + 3) /\ w \in Nat
     /\ form \in Forms /\ body \in {"iter", "to"}
     /\ pc \in {"begin", "run", "done", "panic"}
     /\ pos \in 0..len /\ written \subseteq 0..(len - 1)
